@@ -1507,6 +1507,11 @@ class BootstrapElectionModel(BaseElectionModel):
             aggregate_temp_column_name = "-".join(aggregate)
             all_units[aggregate_temp_column_name] = all_units[aggregate].agg("_".join, axis=1)
             dummies = pd.get_dummies(all_units[aggregate_temp_column_name])
+            # get_dummies orders its columns by the joined string, while the aggregate frames are sorted by the
+            # aggregate columns themselves; the two orders differ when one key is a prefix of another ("1" / "10")
+            dummies = dummies[
+                all_units.drop_duplicates(aggregate_temp_column_name).sort_values(aggregate)[aggregate_temp_column_name]
+            ]
         else:
             # since aggregate is of length zero we can grab the first element
             dummies = pd.get_dummies(all_units[aggregate[0]])
@@ -1652,6 +1657,11 @@ class BootstrapElectionModel(BaseElectionModel):
             aggregate_temp_column_name = "-".join(aggregate)
             all_units[aggregate_temp_column_name] = all_units[aggregate].agg("_".join, axis=1)
             dummies = pd.get_dummies(all_units[aggregate_temp_column_name])
+            # get_dummies orders its columns by the joined string, while the aggregate frames are sorted by the
+            # aggregate columns themselves; the two orders differ when one key is a prefix of another ("1" / "10")
+            dummies = dummies[
+                all_units.drop_duplicates(aggregate_temp_column_name).sort_values(aggregate)[aggregate_temp_column_name]
+            ]
         else:
             # since aggregate is of length one, we can grab the first element
             dummies = pd.get_dummies(all_units[aggregate[0]])
